@@ -41,8 +41,9 @@ def gen_metric(g):
     else:
         c["yh"] = [v + g.dy(a=2, k=6) for v in y]
     if mode == "affine":
-        c["a"] = g.choice([-2.0, 0.5, 3.0, -1.0])
-        c["c"] = g.dy(a=1, k=10)
+        c["a"] = g.choice([-2.0, 0.5, 3.0, -1.0, 2.0 ** -40, -2.0 ** -22, 2.0 ** 25])
+        # (a power-of-two change of unit with no offset is exact in floating point: small- and large-amplitude signals)
+        c["c"] = g.dy(a=1, k=10) if 0.25 <= abs(c["a"]) <= 4 else 0.0
     if c["container"] == "int" and mode == "meanpred":
         c["container"] = "ndarray"      # the mean of integers is not an integer
     if c["container"] == "int":
@@ -276,9 +277,20 @@ def gen_spec(g):
         rot = [g.choice([-1, 1]) * g.choice([0.5, 1.25, 2.0, 3.5]) for _ in range(g.randint(1, 2))]
         if g.chance(0.5):
             rot[0] = g.choice([-1, 1]) * (max(abs(d) for d in diag) + 1.5)      # the dominant pair is complex
-    perm = list(range(n + 2 * len(rot)))
+    symb = []
+    if not rot and not zero_rows and g.chance(0.3):
+        # a symmetric matrix: diagonal part plus blocks [[a, b], [b, a]] (eigenvalues a + b and a - b), so the spectrum is
+        # real and, half of the time, its dominant element is negative
+        for i in range(n):
+            for j in range(i + 1, n):
+                T[i][j] = 0.0
+        symb = [[g.dy(a=2, k=8), g.dy(a=2, k=8)] for _ in range(g.randint(0, 2))]
+        if symb and g.chance(0.5):
+            m = max(abs(d) for d in diag) + 2.0
+            symb[0] = [-m / 2 - 0.25, -m / 2] if g.chance(0.6) else [m / 2, m / 2 + 0.25]
+    perm = list(range(n + 2 * len(rot) + 2 * len(symb)))
     g.shuffle(perm)
-    return {"kind": "spec", "n": n, "T": T, "perm": perm, "rot": rot, "fmt": g.choice(["dense", "csr", "csc"]), "zero_rows": zero_rows,
+    return {"kind": "spec", "n": n, "T": T, "perm": perm, "rot": rot, "symb": symb, "fmt": g.choice(["dense", "csr", "csc"]), "zero_rows": zero_rows,
             "lr": g.choice([1.0, 0.5, 0.25, 0.75, 0.125])}
 
 
@@ -287,12 +299,16 @@ def build_spec(c):
     n = c["n"]
     T = np.array(c["T"], dtype=float)
     rot = c.get("rot") or []
-    N = n + 2 * len(rot)
+    symb = c.get("symb") or []
+    N = n + 2 * len(rot) + 2 * len(symb)
     B = np.zeros((N, N))
     B[:n, :n] = T
     for k, sc in enumerate(rot):
         i = n + 2 * k
         B[i:i + 2, i:i + 2] = sc * np.array([[0.6, -0.8], [0.8, 0.6]])
+    for k, (a, b) in enumerate(symb):
+        i = n + 2 * len(rot) + 2 * k
+        B[i:i + 2, i:i + 2] = np.array([[a, b], [b, a]])
     P = np.zeros((N, N))
     for i, p in enumerate(c["perm"]):
         P[i, p] = 1.0
@@ -357,6 +373,8 @@ def check_cases(ctx, cases):
         else:
             obs.append(common.exc_class(run_spec, c))
             diag = [c["T"][i][i] for i in range(c["n"])]
+            for a, b in (c.get("symb") or []):
+                diag += [a + b, a - b]
             lr = c["lr"]
             slots.append((len(mcases), 3))
             # (the moduli of the rotation blocks' eigenvalues are their scales)
@@ -371,15 +389,19 @@ def check_cases(ctx, cases):
             n = int(np.prod(c["shape"]))
             ctx.count(c, nontrivial=n >= 3, obligation="metrics")
             ctx.stat(f"metric ndim={len(c['shape'])} mode={c['mode']} norm={c['norm']} dw={c['dimensionwise']} {c['container']}")
+            if c["mode"] == "affine":
+                ctx.stat("affine: unit change by 2^-40 / 2^-22 / 2^25" if not 0.25 <= abs(c["a"]) <= 4 else "affine: |a| in [1/2, 3]")
             ctx.sample({k_: c[k_] for k_ in ("shape", "mode", "norm", "dimensionwise", "container")} | {"y": c["y"][:4]})
             check_metric(ctx, c, o, outs[i0])
         else:
             ctx.count(c, nontrivial=True, obligation="spectral_radius")
             ctx.stat(f"spec fmt={c['fmt']} n={c['n']} rot={len(c.get('rot') or [])}")
+            _, Wd = build_spec(c)
+            ctx.stat("spec: symmetric matrix" if np.array_equal(Wd, Wd.T) else "spec: non-symmetric matrix")
             ctx.sample({k_: c[k_] for k_ in ("n", "fmt", "lr", "perm")} | {"diag": [c["T"][i][i] for i in range(c["n"])]})
             # effective matrix produced by the model must have, after undoing the permutation, the predicted diagonal
             effm = outs[i0 + 2]
-            if effm[0] == "ok" and not c.get("rot"):
+            if effm[0] == "ok" and not c.get("rot") and not c.get("symb"):
                 M = np.array([[float(Fraction(v)) for v in row] for row in effm[1]])
                 P = np.zeros((c["n"], c["n"]))
                 for i, p in enumerate(c["perm"]):
@@ -394,7 +416,7 @@ def run(ctx):
     ctx.notes["rule"] = ("metrics: random 1-3-D arrays (ndarray / nested list / int arrays), random / perfect / mean-predictor / affine pairs, "
                          "all four normalisations, dimension-wise on/off, each metric on fresh inputs and in sequence on the same objects, input purity, "
                          "shape-mismatch rejection; spectral radius: rational upper-triangular matrices (dominant eigenvalue unique in modulus, either sign, "
-                         "non-zero diagonal) conjugated by a random permutation, as dense/csr/csc, effective radius for lr in {1,1/2,1/4,3/4,1/8}")
+                         "non-zero diagonal; some with rows summing to zero, some with rotation blocks, some symmetric with a real spectrum whose dominant element may be negative) conjugated by a random permutation, as dense/csr/csc, effective radius for lr in {1,1/2,1/4,3/4,1/8}")
     g = ctx.gen
     cases = common.load_corpus("C19")
     cases += [gen_metric(g) for _ in range(ctx.n(200, 2500))]
